@@ -28,6 +28,9 @@ pub trait Sc: Float + Element + ElementConversion + std::fmt::Debug + num_traits
     const NAME: &'static str;
     fn hex(self) -> String;
     fn tok(self) -> String;
+    /// like `tok`, but an f64 value is marked for the tight f64 comparison (`e…`: rel 1e-9) — used where model and
+    /// implementation see bit-identical f64 parameters, so only the summation order can differ
+    fn tok_tight(self) -> String;
     fn from64(x: f64) -> Self;
     fn to64(self) -> f64;
 }
@@ -37,6 +40,9 @@ impl Sc for f32 {
         h32(self)
     }
     fn tok(self) -> String {
+        ts(self)
+    }
+    fn tok_tight(self) -> String {
         ts(self)
     }
     fn from64(x: f64) -> Self {
@@ -53,6 +59,9 @@ impl Sc for f64 {
     }
     fn tok(self) -> String {
         td(self)
+    }
+    fn tok_tight(self) -> String {
+        format!("e{:016x}", self.to_bits())
     }
     fn from64(x: f64) -> Self {
         x
@@ -125,6 +134,14 @@ impl AnyTarget {
                 -0.5 * q - if q > *r2 { *drop } else { 0.0 }
             }
         }
+    }
+    /// true if the implementation evaluates this target (and its autodiff gradient) at full f64 accuracy with exactly the
+    /// parameters the model is given. Not so for the built-in `DiffableGaussian2D` (rounds its parameters to f32 even on
+    /// an f64 backend) and for the harness's Student-t target (burn's autodiff of `div_scalar`/`log` on the f64 ndarray
+    /// backend is only f32-accurate: observed 1e-9..1e-6 relative deviations from the closed-form gradient — a property
+    /// of the tensor library, outside the repository).
+    pub fn exact_params(&self) -> bool {
+        !matches!(self, AnyTarget::Gauss2 { .. } | AnyTarget::Student { .. })
     }
     pub fn dim_fixed(&self) -> Option<usize> {
         match self {
